@@ -591,6 +591,18 @@ Takes one initial input:
         """get the number of iterations"""
         return max(0,len(self.energy_history)-1)  #XXX: slower for k=-1 ?
 
+    def SetGenerationMonitor(self, monitor, new=False):
+        """select a callable to monitor (x, f(x)) after each solver iteration
+
+input::
+    - a monitor instance or monitor type used to track (x, f(x)). Any data
+      collected in an existing generation monitor will be prepended, unless
+      new is True."""
+        if self._energy_history is not None: # log the latest iteration first
+            self.energy_history = None # resync with 'best' energy
+            self._stepmon(self.bestSolution, self.bestEnergy, self.id)
+        return super(PowellDirectionalSolver, self).SetGenerationMonitor(monitor, new)
+
     def _SetEvaluationLimits(self, iterscale=1000, evalscale=1000):
         """set the evaluation limits
 
